@@ -40,13 +40,25 @@ type c07Variant struct {
 	mk   func() (*dtlsConfig, *dtlsConfig)
 }
 
+// c07CIDGenerator: connection IDs are a function of VERIF_SEED, the suite, the length and the side (reproducible
+// runs) instead of RandomCIDGenerator.  Length 0 = "send only" (an empty connection ID), as RandomCIDGenerator(0).
+func c07CIDGenerator(suite CipherSuiteID, n int, client bool) func() []byte {
+	seed := (vSeed()^0xc07c1d)*1099511628211 + uint64(suite)<<8 + uint64(n) //nolint:gosec
+	if client {
+		seed ^= 0x5555
+	}
+	rng := newVRand(seed)
+
+	return func() []byte { return rng.bytes(n) }
+}
+
 func c07Cert12(suite CipherSuiteID, ccid, scid int, clientAuth bool) func() (*dtlsConfig, *dtlsConfig) {
 	return func() (*dtlsConfig, *dtlsConfig) {
 		c, s := vCertPair()
 		c.CipherSuites, s.CipherSuites = []CipherSuiteID{suite}, []CipherSuiteID{suite}
 		c.MaxVersion, s.MaxVersion = protocol.Version1_2, protocol.Version1_2
 		if ccid > 0 || scid > 0 {
-			c.ConnectionIDGenerator, s.ConnectionIDGenerator = RandomCIDGenerator(ccid), RandomCIDGenerator(scid)
+			c.ConnectionIDGenerator, s.ConnectionIDGenerator = c07CIDGenerator(suite, ccid, true), c07CIDGenerator(suite, scid, false)
 		}
 		if clientAuth {
 			cr := vGetCreds()
@@ -64,7 +76,7 @@ func c07PSK12(suite CipherSuiteID, ccid, scid int) func() (*dtlsConfig, *dtlsCon
 		c, s := vPSKPair(suite)
 		c.MaxVersion, s.MaxVersion = protocol.Version1_2, protocol.Version1_2
 		if ccid > 0 || scid > 0 {
-			c.ConnectionIDGenerator, s.ConnectionIDGenerator = RandomCIDGenerator(ccid), RandomCIDGenerator(scid)
+			c.ConnectionIDGenerator, s.ConnectionIDGenerator = c07CIDGenerator(suite, ccid, true), c07CIDGenerator(suite, scid, false)
 		}
 
 		return c, s
@@ -407,7 +419,9 @@ func c07HandshakeSecrets(lab *vLab, v13 bool) []c07Secret {
 func c07Hellos(log []vDatagram) (cr, sr []byte) {
 	for _, d := range log {
 		b := d.Data
-		for len(b) >= 13 && b[0] >= 20 && b[0] <= 27 {
+		// plain 13-byte headers only: a tls12_cid record (whose header length this function does not know) ends the
+		// walk - the hellos are never behind one
+		for len(b) >= 13 && b[0] >= 20 && b[0] <= 27 && b[0] != 25 {
 			n := int(binary.BigEndian.Uint16(b[11:]))
 			if 13+n > len(b) {
 				break
@@ -1091,7 +1105,8 @@ func c07Resume(t *testing.T, v c07Variant, rng *vRand, out *vOut) {
 				if bytes.Contains(d.Data, pl[len(pl)-24:]) || bytes.Contains(d.Data, pl[:20]) {
 					res.Leaks = append(res.Leaks, c07Leak{What: "payload", From: side, Idx: d.Idx, Hex: vHex(d.Data), Sec: vHex(pl[len(pl)-24:])})
 				}
-				for _, r := range vParseDatagram(d.Data, 0) {
+				// records SENT by the resumed connection carry the connection ID its peer chose
+				for _, r := range vParseDatagram(d.Data, len(dtlsstate.CommonState(conn.state).RemoteConnectionID)) {
 					res.Records++
 					enc := r.Epoch != 0 && !bytes.Contains(r.Raw, pl[:20])
 					l := c07Label{From: side, CT: r.CT, Epoch: r.Epoch, Enc: enc, Note: "resumed"}
